@@ -87,7 +87,7 @@ int ops_core(int n, char **a) {
         if (e) outErr(e); else printf("ok %" PRIx64 "\n", out);
         return 1;
     }
-    if (isop(op, "children") && n == 3) {
+    if ((isop(op, "children") || isop(op, "childrenS")) && n == 3) {
         H3Index h = pH(a[1]); int r = (int)pI(a[2]);
         int64_t sz = 0; H3Error e = H3_EXPORT(cellToChildrenSize)(h, r, &sz);
         if (e) { outErr(e); return 1; }
@@ -102,12 +102,12 @@ int ops_core(int n, char **a) {
         free(buf);
         return 1;
     }
-    if (isop(op, "cpos") && n == 3) {
+    if ((isop(op, "cpos") || isop(op, "cposS")) && n == 3) {
         int64_t out = 0; H3Error e = H3_EXPORT(cellToChildPos)(pH(a[1]), (int)pI(a[2]), &out);
         if (e) outErr(e); else printf("ok %" PRId64 "\n", out);
         return 1;
     }
-    if (isop(op, "pos2cell") && n == 4) {
+    if ((isop(op, "pos2cell") || isop(op, "pos2cellS")) && n == 4) {
         H3Index out = 0; H3Error e = H3_EXPORT(childPosToCell)((int64_t)pI(a[1]), pH(a[2]), (int)pI(a[3]), &out);
         if (e) outErr(e); else printf("ok %" PRIx64 "\n", out);
         return 1;
